@@ -136,6 +136,18 @@ def game_extras(game, variant):
     return meta
 
 
+def large_lists(n=300):
+    """n notes on the quarter-beat grid of a 120 -> 60 -> 120 -> 240 bpm timeline (every 5th a hold of 250 ms), 6 SVs:
+    beyond the small-array fast paths (16), the small-integer cache (256) and - with n >= 1100 - 1024-row chunks."""
+    notes = []
+    for i in range(n):
+        t = 125.0 * i if i < 16 else 2000.0 + 250.0 * (i - 16)
+        notes.append((t, i % 4, 250.0 if i % 5 == 2 else None))
+    bpms = [(0.0, 120.0), (2000.0, 60.0), (22000.0, 120.0), (30000.0, 240.0)]
+    svs = [(100.0, 2.0), (2600.0, 0.5), (9000.0, 1.5), (22000.0, 0.75), (40000.0, 1.25), (60000.0, 1.0)]
+    return notes, bpms, svs
+
+
 def make(game: str, variant: str):
     """Returns a fresh real chart (Map) of `game` in start state `variant`."""
     if variant == "read":
@@ -143,6 +155,8 @@ def make(game: str, variant: str):
     notes = NOTES
     svs = SVS
     bpms = BPMS
+    if variant.startswith("large"):
+        notes, bpms, svs = large_lists(int(variant[5:] or 300))
     if variant == "single":
         # one row per list: one-row buffers and frames behave differently from longer ones in several places
         notes = [(1000.0, 0, None), (2000.0, 1, 1000.0)]
